@@ -866,7 +866,7 @@ func c17Output(c *Ctx, run *ssa.Function) {
 	toStdout := false
 	if em.out != nil {
 		if ne, ok := em.call.Common().Args[0].(*ssa.Call); ok && ssau.CallName(ne) == "encoding/json.NewEncoder" {
-			toStdout = isStdout(ne.Common().Args[0])
+			toStdout = isStdout(ne.Common().Args[0]) || flushedStdoutBuffer(ne.Common().Args[0])
 		}
 	} else {
 		data := resultValue(em.call, 0)
@@ -1052,6 +1052,28 @@ func isStdout(v ssa.Value) bool {
 		}
 	}
 	return false
+}
+
+// flushedStdoutBuffer: v is bufio.NewWriter(os.Stdout) / NewWriterSize(os.Stdout, n)
+// made in a function that flushes it by a deferred Flush (runs on every way
+// out) — what is written to it reaches os.Stdout before the command returns.
+func flushedStdoutBuffer(v ssa.Value) bool {
+	mk, ok := ssau.Strip(v).(*ssa.Call)
+	if !ok {
+		return false
+	}
+	if n := ssau.CallName(mk); (n != "bufio.NewWriter" && n != "bufio.NewWriterSize") || !isStdout(mk.Common().Args[0]) {
+		return false
+	}
+	flushed := false
+	for _, ref := range *mk.Referrers() {
+		if d, ok := ref.(*ssa.Defer); ok {
+			if g := d.Call.StaticCallee(); g != nil && g.String() == "(*bufio.Writer).Flush" && len(d.Call.Args) == 1 && d.Call.Args[0] == ssa.Value(mk) {
+				flushed = true
+			}
+		}
+	}
+	return flushed
 }
 
 // printCarriesAny: one of the variadic arguments of the print call is in set.
